@@ -22,7 +22,7 @@ func init() {
 	core.Register(&core.Check{
 		ID:    "C19",
 		Level: "exploration",
-		Rule: "random sequences of 1-60 graphics calls (move/line/rect/circle/poly/ellipse/text/clear/grid/gridn and the style setters color/hsl/width/stroke/fill/dash/linecap/font) with style changes between every pair of shapes in some runs and never in others, degenerate arguments (0, negative, NaN, infinities, huge, empty and markup-like strings, dash with 0/odd/negative segments, poly with 0-2 vertices, ellipse with 3/4/5/7 arguments, gridn with fractional and large units); driven through the library (cli platform with SVG, in-process) and sampled through `evy run --svg-out -`/file with --svg-width/height/style; the output is parsed by a strict XML parser, flattened (group nesting and inherited presentation attributes resolved down to leaf shapes) and compared with a reference pen model. distinct = distinct call sequences",
+		Rule:  "random sequences of 1-60 graphics calls (move/line/rect/circle/poly/ellipse/text/clear/grid/gridn and the style setters color/hsl/width/stroke/fill/dash/linecap/font) with style changes between every pair of shapes in some runs and never in others, degenerate arguments (0, negative, NaN, infinities, huge, empty and markup-like strings, dash with 0/odd/negative segments, poly with 0-2 vertices, ellipse with 3/4/5/7 arguments, gridn with fractional and large units); driven through the library (cli platform with SVG, in-process) and sampled through `evy run --svg-out -`/file with --svg-width/height/style; the output is parsed by a strict XML parser, flattened (group nesting and inherited presentation attributes resolved down to leaf shapes) and compared with a reference pen model. distinct = distinct call sequences",
 		Assumptions: []string{
 			"text colour: the effective fill of a text may be the pen's fill or stroke colour (documentation and golden files disagree); text outline not judged",
 			"not judged: font baseline mapping, ellipse start/end angles (documented as not implemented), NaN/Inf geometry (only well-formedness)",
@@ -53,13 +53,13 @@ type penStyle struct {
 }
 
 type shape struct {
-	kind string
-	geo  []float64
-	pts  string
-	text string
-	st   penStyle
-	grid bool    // grid line: only stroke and width judged
-	nan  bool    // geometry contains NaN/Inf: not judged
+	kind    string
+	geo     []float64
+	pts     string
+	text    string
+	st      penStyle
+	grid    bool   // grid line: only stroke and width judged
+	nan     bool   // geometry contains NaN/Inf: not judged
 	fillAlt string // alternative acceptable fill (text)
 }
 
@@ -494,7 +494,7 @@ func compareShapes(want []shape, got []leaf) (diffs []shapeDiff) {
 		where := fmt.Sprintf("shape %d (%s)", i, w.kind)
 		if w.kind == "background" {
 			if g.own["width"] != "100%" || g.own["height"] != "100%" {
-				report("geometry:background", where + ": background does not cover the canvas")
+				report("geometry:background", where+": background does not cover the canvas")
 			}
 			if effAttr(g, "fill", "black") != w.st.fill && w.st.fill != "" {
 				report("style:background-fill", fmt.Sprintf("%s: fill %q, cleared to %q", where, effAttr(g, "fill", "black"), w.st.fill))
@@ -517,14 +517,14 @@ func compareShapes(want []shape, got []leaf) (diffs []shapeDiff) {
 			}
 			for k, nme := range names {
 				if !sameNum(g.own[nme], w.geo[k]) {
-					report("geometry:" + w.kind + ":" + nme, fmt.Sprintf("%s: %s=%q, expected %s", where, nme, g.own[nme], ftoa(w.geo[k])))
+					report("geometry:"+w.kind+":"+nme, fmt.Sprintf("%s: %s=%q, expected %s", where, nme, g.own[nme], ftoa(w.geo[k])))
 				}
 			}
 			if w.kind == "polyline" && g.own["points"] != w.pts {
 				report("geometry:polyline", fmt.Sprintf("%s: points %q, expected %q", where, g.own["points"], w.pts))
 			}
 			if w.kind == "ellipse" && w.geo[4] != 0 && !strings.HasPrefix(g.own["transform"], "rotate(") {
-				report("geometry:ellipse-rotation", where + ": rotation missing")
+				report("geometry:ellipse-rotation", where+": rotation missing")
 			}
 		}
 		if got, wantS := effAttr(g, "stroke", "none"), w.st.stroke; got != wantS && w.kind != "text" && wantS != "" {
@@ -551,7 +551,7 @@ func compareShapes(want []shape, got []leaf) (diffs []shapeDiff) {
 				name, initial, want string
 			}{{"font-style", "normal", w.st.fstyle}, {"font-family", `"Fira Code", monospace`, w.st.family}, {"text-anchor", "start", w.st.anchor}, {"letter-spacing", "0", w.st.spacing}} {
 				if got := effAttr(g, c.name, c.initial); got != c.want {
-					report("style:" + c.name, fmt.Sprintf("%s: effective %s %q, expected %q", where, c.name, got, c.want))
+					report("style:"+c.name, fmt.Sprintf("%s: effective %s %q, expected %q", where, c.name, got, c.want))
 				}
 			}
 			if got := effAttr(g, "font-size", "60"); !sameNum(got, w.st.size) {
